@@ -86,6 +86,15 @@ def run_vote(case, deadline=10.0, seed=None):
             except Exception:  # noqa
                 pass
         A, prof = np_profile(case)
+        if case.get("inplace_first") is not None:   # history: same rule object, same profile object, contents overwritten in place
+            B = np.array(case["inplace_first"], dtype=A.dtype)
+            if B.shape == A.shape:
+                keep = A.copy(); A[...] = B
+                try:
+                    getattr(rule, case["method"])(prof)
+                except Exception:  # noqa
+                    pass
+                A[...] = keep
         A0 = A.copy()
         out = getattr(rule, case["method"])(prof)
         sc = None
